@@ -33,7 +33,9 @@ def _load():
 
 
 def long_limit():
-    return 5.0 if core.TIER == "thorough" else 2.0
+    # generous: on a loaded machine a 1 ms build can stall for seconds; only a build that is still
+    # running after this long counts as non-termination
+    return 60.0 if core.TIER == "thorough" else 30.0
 
 
 QUICK_PLANS = ["testPoint.flo", "basic.flo", "testViaDoClausePer.flo"]
@@ -107,7 +109,7 @@ class Judge:
         if b.kind != "Watchdog":
             return b
         acc, group, detail = self.s.classify(b)
-        if self.confirmed.get(group, 0) >= CONFIRM_MAX:
+        if self.confirmed.get(group, 0) >= CONFIRM_MAX and "?:?" not in group:
             return b
         b2 = self.s.build(text, limit=long_limit(), **kw)
         if b2.kind == "Watchdog":
